@@ -6,7 +6,7 @@ import subprocess
 from . import ais, gen, core
 from .core import hexs, parse_answer
 from .refsent import ref_sentence
-from .props_sent import L, rand_valid_sentence, rand_bytes, op_line, near_misses, numeric_extremes
+from .props_sent import L, rand_valid_sentence, rand_bytes, op_line, near_misses, numeric_extremes, utf8_lines
 
 
 def split_payload(rng, payload, n):
@@ -39,6 +39,12 @@ def noise_line(rng):
         # unfragmented, but carrying a sequence id (some transmitters send one)
         p_, f_ = gen.valid_message_payload(rng)
         return ais.sentence(p_, fill=f_, nf=1, fn=rng.choice([1, 1, 1, 2]), mid=rng.choice([0, 1, 2, 3, 5, 7, 9]))
+    if r < 0.42:
+        # a fragment of any position, well formed, with a wrong checksum
+        n = rng.choice([2, 3, 4, 9])
+        good = ais.sentence(gen.random_alphabet(rng, 5), nf=n, fn=rng.randrange(1, n + 1), mid=rng.choice([None, 0, 1, 2, 3]), fill=0)
+        c = int(good[-2:], 16)
+        return good[:-2] + b"%02X" % (c ^ rng.choice([1, 2, 0x10, 0x80, 0xFF]))
     if r < 0.5:
         return ais.sentence(gen.random_alphabet(rng, 5), cks=rng.getrandbits(8) | 0x100 & 0xFF)  # (mostly) bad checksum
     if r < 0.65:
@@ -651,6 +657,10 @@ class C01:
                     ops.append(L(ais.sentence(b"15", nf=n, fn=k, mid=mid), 0, rng.randrange(2)))
         # the longest possible group: 254 accepted fragments (counter at 254), and the completed
         # 255-fragment group (counter must be back at 0), each followed by boundary numberings
+        # every grammar near miss, numeric extreme and multi-byte text line, with decoding on and off
+        ops.append("N 0")
+        for l in near_misses(rng):
+            ops.append(L(l, 0, rng.randrange(2)))
         for first in (b"F", b"1"):
             ops.append("N 0")
             for j in range(1, 256):
@@ -736,6 +746,14 @@ class C20:
             elif r < 0.5:
                 p, f = gen.valid_message_payload(rng, 5)
                 _, ls = frag_lines(rng, p, f, rng.choice([2, 3]), rng.choice([None, 1]))
+                if rng.random() < 0.4:
+                    # other traffic between the fragments of a group
+                    mixed = []
+                    for l in ls:
+                        mixed.append(l)
+                        if rng.random() < 0.6:
+                            mixed.append(noise_line(rng).replace(b"\n", b" "))
+                    ls = mixed
                 lines += ls if rng.random() < 0.7 else ls[:1]
             elif r < 0.6:
                 lines.append(b"")
